@@ -23,6 +23,8 @@ RULE = ('A case is one seeded input BAM (1..4 contigs of 300..8000 bp, dense lib
         '(region tiling with bp_per_segment in [30,5000], bp_per_job in [segment, 20*segment], fragment_size >= longest fragment, sometimes larger than the segment), '
         'P/T under a SimPool of width 1..8 and a seeded completion order. Oracle: multiset of full canonical records (flags, positions, mate fields, sequence, '
         'qualities, every tag except mi/ix) identical across S, P and T; every molecule written by exactly one job, in T the job whose bin contains its site. '
+        '40% of the cases add TL: the second tiling under -max_time_per_segment with a simulated clock (1 ms per reading) that stalls once for longer than the limit; '
+        'records missing from TL must carry a site inside a segment the output header reports as timed out, nothing may be extra. '
         'evaluations = tagger lifetimes. Non-trivial: a T execution with >=3 jobs in which some molecule has fragments on both sides of a tile edge; '
         'distinct = distinct (input, tiling, schedule) digests among those.')
 ASSUMPTIONS = [
@@ -31,9 +33,10 @@ ASSUMPTIONS = [
     'SimPool runs task bodies atomically in-process with pickled arguments/results',
     'the tiling API is called with the iterator arguments the command line builds for --multiprocess (captured from the real argument handling)',
 ]
+COMPONENTS_NOTE = 'tagging.datetime is the simulated task clock in TL lifetimes'
 COMPONENTS = {'real': tc.TAGGER_REAL + ['blacklisted_binning_contigs / blacklisted_binning / fill_range', 'bp_chunked', 'cut-site ownership filter in run_tagging_task'],
               'stub': tc.TAGGER_STUB}
-REQUIRED_PROBES = ['forked_worker_processes', 'fragment_at_contig_start', 'contig_with_only_placed_unmapped_reads', 'tiling_lifetime', 'molecule_straddles_tile_edge', 'site_on_tile_boundary', 'delivery_order_not_submission_order', 'multi_job_tiling', 'margin_larger_than_segment', 'unplaced_reads']
+REQUIRED_PROBES = ['segment_timed_out_and_reported', 'forked_worker_processes', 'fragment_at_contig_start', 'contig_with_only_placed_unmapped_reads', 'tiling_lifetime', 'molecule_straddles_tile_edge', 'site_on_tile_boundary', 'delivery_order_not_submission_order', 'multi_job_tiling', 'margin_larger_than_segment', 'unplaced_reads']
 
 
 def plan(tier):
@@ -87,6 +90,12 @@ def generate(seed, tier):
         fsz = weighted(w, [(longest, 3), (longest + w.randint(1, 200), 3), (max(longest, sg + w.randint(1, 500)), 2)])
         modes.append({'mp': True, 'name': f'T{t}', 'api': 'tiling', 'width': s.randint(1, 8), 'schedule': {'policy': 'seeded'}, 'seed': seed + f'T{t}', 'isolation': s.choice(['inproc', 'fork']),
                       'tiling': {'bp_per_segment': sg, 'bp_per_job': sg * w.randint(1, 20), 'fragment_size': fsz, 'job_bed': s.choice([None, None, 'plain', 'gz'])}})
+    if s.random() < 0.4:
+        # the tiling once more under a per-segment time limit, with a clock that stalls once: the segment caught by the stall is dropped and must be
+        # REPORTED in the output header; everything outside reported segments must still equal the serial pass
+        tl = dict(modes[-1]['tiling'], time_limit={'limit': 600, 'stall_at_call': s.randint(0, 30)})
+        modes.append({'mp': True, 'name': 'TL', 'api': 'tiling', 'width': s.randint(1, 4), 'schedule': {'policy': 'seeded'}, 'seed': seed + 'TL',
+                      'isolation': s.choice(['inproc', 'fork']), 'tiling': tl})
     return {'params': params, 'genome': genome, 'workload': frags, 'modes': modes}
 
 
@@ -179,6 +188,39 @@ def execute(case):
             if ref is None:
                 ref, ref_name = keys, name
                 ref_recs = recs
+            elif (mode.get('tiling') or {}).get('time_limit'):
+                import pysam
+                import re as _re
+                probe('time_limit_lifetime')
+                with pysam.AlignmentFile(o['out']) as ah:
+                    cos = ah.header.to_dict().get('CO', [])
+                reported = []
+                for line in cos:
+                    m_ = _re.match(r'^scmo_blacklisted\t(.+):(\S+) (\S+)\t', line)
+                    if m_:
+                        reported.append((m_.group(1), None if m_.group(2) == 'None' else int(m_.group(2)), None if m_.group(3) == 'None' else int(m_.group(3))))
+                log.add('reported-timeouts', sorted(map(str, reported)))
+                if reported:
+                    probe('segment_timed_out_and_reported')
+                a, b = tc.multiset_diff(ref, keys)
+                clen = dict(map(tuple, case['genome']))
+                outside = []
+                for k in a:
+                    r = json.loads(k)
+                    refname = r[3]
+                    ds = dict(map(tuple, r[12])).get('DS') if len(r) > 12 else None
+                    if ds is None or refname is None:
+                        if not reported:
+                            outside.append(r[0])
+                        continue
+                    ds = min(max(int(ds), 0), clen.get(refname, int(ds) + 1) - 1)
+                    if not any(c == refname and s_ is not None and s_ <= ds < e_ for (c, s_, e_) in reported):
+                        outside.append(r[0])
+                if b:
+                    V('records-differ-from-serial', 'TL-vs-S/extra-records-under-time-limit', n_only_parallel=sum(b.values()), reported=reported[:4], **ctx)
+                if outside:
+                    V('records-missing-in-parallel', 'TL-vs-S/missing-outside-reported-timeouts', only_serial_ids=sorted(set(outside))[:6], reported=reported[:6],
+                      n_only_serial=sum(a.values()), **ctx)
             else:
                 a, b = tc.multiset_diff(ref, keys)
                 if a or b:
